@@ -13,7 +13,7 @@ HARNESS = ["auth/api/iam/zz_verif_c02_test.go", "storage/zz_verif_c02_export.go"
 REQUIRED = [
     "s2s_token_only_if", "s2s_defect_combination_rejected", "claims_cannot_override", "claims_cannot_override_today",
     "authorize_request_only_if", "authorize_response_only_if", "code_token_only_if", "code_redeemed_at_most_once", "nonce_covers_window",
-    "nonce_covers_window_today", "introspect_active_only_if_issued", "introspect_faithful",
+    "nonce_covers_window_today", "s2s_nonce_store_fault_fails_closed", "introspect_active_only_if_issued", "introspect_faithful",
     "introspect_depends_on_token_store_only", "s2s_all_required_definitions_fulfilled_false", "plain_introspection_members",
     "fact_s2s_chain", "fact_code_token_chain", "fact_authorize_response_chain", "fact_introspect_chain",
     "fact_reserved_covers_fields", "fact_empty_vp_checked", "fact_nonce_ttl_covers_window", "fact_ttls",
